@@ -23,6 +23,7 @@ import Tranp.Lemmas.Evaluator
 import Tranp.Lemmas.EmitValue
 import Tranp.Lemmas.Escape
 import Tranp.Lemmas.PyInt
+import Tranp.Lemmas.CppLiteral
 
 namespace Tranp.C17
 open Tranp Tranp.Evaluator
@@ -383,6 +384,94 @@ example :
     emitValue freeOps ⟨[], []⟩ 5 ⟨.string ['\'','\'','\'','a','\'','\'','\''], str⟩ = .error .notAllowed
     ∧ emitValue freeOps ⟨[], []⟩ 5 ⟨.string ['r','\'','a','\''], str⟩ = .error .notAllowed
     ∧ emitValue freeOps ⟨[], []⟩ 5 ⟨.string ['\'','a','\''], str⟩ = .ok ['"','a','"'] := by
+  decide
+
+/-! ## the C++ reading of an inlined string value (relay/literalize.j2 prints the raw body of the token between double quotes) -/
+
+/-- **cpp_reads_python**: on every body `cppSafe` accepts — no unescaped `"`, no raw line feed, only escapes both languages define
+    (octal and `\xhh` below 0x80, no hexadecimal digit right after `\xhh`, `\uhhhh`, `\Uhhhhhhhh`, n t r a b f v \ ' ") — the C++
+    narrow string literal `"body"` denotes exactly the UTF-8 encoding of the string CPython reads from `'body'`. -/
+theorem cpp_reads_python (body : Str) (h : cppSafe body = true) : cppBytes body = some (utf8s (decodeEsc body)) :=
+  cpp_sim body .normal h
+
+/-- non-vacuity of `cpp_reads_python`: `a\n\x41\101` + `é` + `\u00e9\U0001F600` + `\"` is safe and is read as the bytes
+    `61 0a 41 41 c3a9 c3a9 f09f9880 22` by both. -/
+example :
+    let body : Str := ['a','\\','n','\\','x','4','1','\\','1','0','1', Char.ofNat 0xe9, '\\','u','0','0','e','9',
+      '\\','U','0','0','0','1','F','6','0','0','\\','"']
+    cppSafe body = true
+    ∧ cppBytes body = some [0x61, 0x0a, 0x41, 0x41, 0xc3, 0xa9, 0xc3, 0xa9, 0xf0, 0x9f, 0x98, 0x80, 0x22]
+    ∧ utf8s (decodeEsc body) = [0x61, 0x0a, 0x41, 0x41, 0xc3, 0xa9, 0xc3, 0xa9, 0xf0, 0x9f, 0x98, 0x80, 0x22] := by
+  decide
+
+/-- the same without the guard: every body CPython decodes (no `"` in it) is read alike by C++ -/
+def cpp_reads_python_unguarded_statement : Prop :=
+  ∀ body : Str, escOk body = true → body.contains '"' = false → cppBytes body = some (utf8s (decodeEsc body))
+
+/-- … is false (finding `output-python-escape-in-cpp-literal`): `a\d` is the three characters `a`, `\`, `d` in Python and not a
+    defined literal in ISO C++ (g++ reads `ad`, with a warning). -/
+theorem cpp_escape_counterexample : ¬ cpp_reads_python_unguarded_statement := by
+  intro h
+  have := h ['a','\\','d'] (by decide) (by decide)
+  revert this
+  decide
+
+/-- the other classes of the finding: `\x41b` is `Ab` in Python and an out-of-range escape in C++ (`\x` takes every hexadecimal
+    digit); `\xe9` and `\351` are `é` (UTF-8 `c3 a9`) in Python and the single byte `e9` in C++; `\?` is two characters in Python and
+    `?` in C++; an unescaped `"` ends the C++ literal (`output-unescaped-double-quote`). -/
+example :
+    cppBytes ['\\','x','4','1','b'] = none ∧ decodeEsc ['\\','x','4','1','b'] = ['A','b']
+    ∧ cppBytes ['\\','x','e','9'] = some [0xe9] ∧ utf8s (decodeEsc ['\\','x','e','9']) = [0xc3, 0xa9]
+    ∧ cppBytes ['\\','3','5','1'] = some [0xe9] ∧ utf8s (decodeEsc ['\\','3','5','1']) = [0xc3, 0xa9]
+    ∧ cppBytes ['\\','?'] = some [0x3f] ∧ utf8s (decodeEsc ['\\','?']) = [0x5c, 0x3f]
+    ∧ cppBytes ['s','a','y',' ','"','h','i','"'] = none := by
+  decide
+
+/-- **output_string_cpp**: the string case of the second observation point WITH escapes: when the folder returns the token `s`
+    for the member value and CPython evaluates it to the string `c`, the text `on_relay` inlines is `"` + `s[1:-1]` + `"`, and —
+    if `cppSafe` accepts that body — a C++ compiler reads it as the UTF-8 encoding of `c`. (`output_agree` covers the bodies
+    without backslash; this one needs no guard on the expression either, only `cppSafe` on the inlined body.) -/
+theorem output_string_cpp {F : Type} (ops : FloatOps F) (hops : FloatText ops) (env : Env) (fuel : Nat) (mem : Member) (ti : TyInfo)
+    (venv : VEnv F) (s c : Str)
+    (hty : mem.ty = .ok ti) (hfit : ti.fits (.str c : V F)) (hc : Cons .py ops env venv)
+    (hi : execImpl ops env fuel mem.value = .ok (.str s)) (hp : evalPy .py ops env.known venv (toPy mem.value) = .ok (.str c))
+    (hsafe : cppSafe (unq s) = true) :
+    emitValue ops env fuel mem = .ok ('"' :: (unq s ++ ['"'])) ∧ cppBytes (unq s) = some (utf8s c) := by
+  have hsim := agree ops hops env fuel mem.value venv _ _ hc hi hp
+  cases hsim with
+  | @str _ raw _ hq hd _ =>
+    obtain ⟨q, q', _, _, rfl⟩ := hq
+    have hu : ∀ raw : Str, unq (q :: (raw ++ [q'])) = raw := by
+      intro raw; simp [unq]
+    rw [hu] at hsafe ⊢
+    refine ⟨?_, by rw [cpp_reads_python _ hsafe, hd]⟩
+    obtain ⟨his, hnum⟩ := hfit
+    have hlit : literalOf ops env fuel mem.value = .ok (q :: (raw ++ [q'])) := by
+      cases fuel with
+      | zero => simp [execImpl] at hi
+      | succ f =>
+        cases hv : mem.value with
+        | integer tok =>
+          rw [hv] at hi
+          simp only [execImpl, onInteger] at hi
+          split at hi <;> exact absurd hi (liftPy_map_ne_str _ _ (by intro n h; cases h))
+        | float tok =>
+          rw [hv] at hi
+          simp only [execImpl, onFloat] at hi
+          exact absurd hi (liftPy_map_ne_str _ _ (by intro n h; cases h))
+        | _ => rw [hv] at hi; simp [literalOf, hi, Except.map, pyStrOf]
+    have hnum' : ¬ ti.varType ∈ Generated.RelayLiteralize.numericTypes := by simpa using hnum
+    simp [emitValue, hty, hlit, his, renderLiteralize, hnum', hu, Generated.RelayLiteralize.quote, bind, Except.bind, pure, Except.pure]
+
+/-- non-vacuity of `output_string_cpp`: the member `'caf\u00e9' + "\t!"` is inlined as `"caf\u00e9\t!"`, whose body is safe. -/
+example :
+    let e : Expr := .chain ['o','n','_','s','u','m'] (.string ['\'','c','a','f','\\','u','0','0','e','9','\''])
+      [(['+'], .string ['"','\\','t','!','"'])]
+    let mem : Member := ⟨e, .ok ⟨['s','t','d',':',':','s','t','r','i','n','g'], true⟩⟩
+    execImpl freeOps ⟨[], []⟩ 5 e = .ok (.str ['\'','c','a','f','\\','u','0','0','e','9','\\','t','!','\''])
+    ∧ evalPy .py freeOps [] [] (toPy e) = .ok (.str ['c','a','f',Char.ofNat 0xe9,'\t','!'])
+    ∧ cppSafe ['c','a','f','\\','u','0','0','e','9','\\','t','!'] = true
+    ∧ emitValue freeOps ⟨[], []⟩ 5 mem = .ok ['"','c','a','f','\\','u','0','0','e','9','\\','t','!','"'] := by
   decide
 
 end Tranp.C17
